@@ -199,6 +199,7 @@ def install(eng, tags):
                 s.fact(z3.Length(re_) <= 1)
                 if isinstance(ap, VNoneT):
                     s.fact(z3.Length(re_) == 1)
+            s.events = s.events + [("responses", R)]
             out.append((s, R))
         return out
     reg("send_messages_await_response_complex", complex_model)
@@ -452,6 +453,23 @@ def ble_contracts():
                          "BluetoothConnectionDroppedError": {"kind": "property", "ensures": [
                              ("own:only-for-a-connection-change-of-its-address", "exact_type(resp, BluetoothDeviceConnectionResponse) and resp.address == address")]},
                          "APIConnectionError": {"kind": "auxiliary"}, "CancelledError": {"kind": "auxiliary"}}),
+        Contract(CLI + "bluetooth_device_disconnect", self_type="inst[APIClient]", tags=["C16"], params={"address": "int", "timeout": "real"},
+                 requires=[("address-fits", "address >= 0 and address < 2 ** 64"), ("timeout-positive", "timeout > 0")],
+                 ensures=[P("C16", "completes-only-with-the-disconnected-report-for-its-own-address",
+                            "len(last_responses) == 1 and exact_type(last_responses[0], BluetoothDeviceConnectionResponse) and "
+                            "last_responses[0].address == address and not last_responses[0].connected"),
+                          P("C16", "asks-the-device-to-disconnect-that-address",
+                            "n_sent == 1 and exact_type(sent[0], BluetoothDeviceRequest) and sent[0].address == address and sent[0].request_type == 1")],
+                 raises={"APIConnectionError": {"kind": "auxiliary"}, "CancelledError": {"kind": "auxiliary"}}),
+        Contract(CLI + "_bluetooth_device_request_watch_connection", self_type="inst[APIClient]", tags=["C16"], result="obj[Message]",
+                 params={"address": "int", "request_type": "enum[aioesphomeapi.model.BluetoothDeviceRequestType]", "msg_types": "tuple[cls]", "timeout": "real"},
+                 requires=[("address-fits", "address >= 0 and address < 2 ** 64"), ("timeout-positive", "timeout > 0"),
+                           ("a-response-class-that-carries-an-address", "same_class(msg_types[0], BluetoothDevicePairingResponse) or same_class(msg_types[0], BluetoothDeviceUnpairingResponse) "
+                                                                        "or same_class(msg_types[0], BluetoothDeviceClearCacheResponse)")],
+                 ensures=[P("C16", "returns-only-the-awaited-response-for-its-own-address", "same_class(class_of(result), msg_types[0]) and result.address == address")],
+                 raises={"BluetoothConnectionDroppedError": {"kind": "property", "ensures": [
+                             ("own:only-for-a-connection-change-of-its-address", "exact_type(response, BluetoothDeviceConnectionResponse) and response.address == address")]},
+                         "APIConnectionError": {"kind": "auxiliary"}, "CancelledError": {"kind": "auxiliary"}}),
         Contract(CLI + "bluetooth_gatt_start_notify", self_type="inst[APIClient]", tags=["C16"],
                  params={"address": "int", "handle": "int", "on_bluetooth_gatt_notify": "callable[UserCb]", "timeout": "real"},
                  requires=[("fields-fit", "address >= 0 and address < 2 ** 64 and handle >= 0 and handle < 2 ** 32")],
@@ -593,6 +611,11 @@ def install_c16_c17(eng):
     prev_nd = eng.hooks.get("names_dynamic")
 
     def nd(name, st):
+        if name == "last_responses":
+            rs = [ev[1] for ev in st.events if ev[0] == "responses"]
+            if not rs:
+                raise Unsupported("no request/response call completed on this path")
+            return rs[-1]
         if name == "unsub_write_failed":
             return VBool(any(t.startswith("send!") for t in st.trace))
         if name == "unsubscribed_before_last_send":
